@@ -96,6 +96,8 @@ class LazyDev(UiAdmin):
         self.pin_known = False
         self.operator = None
         self.key_fault = None        # (index of the key exchange, kind)
+        self.lost = None             # (exchange, kind) of the answer that was lost
+        self.world = None
         self.keys_served = 0
 
     def snapshot(self):
@@ -170,6 +172,33 @@ class LazyDev(UiAdmin):
         if v == "ok":
             self.pin_known = True
         return v == "ok"
+
+    def handle(self, apdu):
+        """onboarding: the device applies a destructive command and the ANSWER is lost (the link
+        dies and the device re-enumerates, or the exchange times out) -- at the first and the
+        last SEED and at the final WIPE / SGX_ONBOARD; at most once per execution"""
+        resp = UiAdmin.handle(self, apdu)
+        apdu = bytes(apdu)
+        if self.cfg["cmd"] == "onboard" and self.lost is None and len(apdu) > 1 and apdu[0] == 0x80:
+            point = None
+            if apdu[1] == 0x44 and len(apdu) == 4 and apdu[2] in (0, 31):
+                point = "seed"
+            elif apdu[1] in (0x07, 0xA0):
+                point = "final"
+            if point:
+                opts = ["delivered", "lost-link", "lost-timeout"] if point == "final" else \
+                    ["delivered", "lost-link"]
+                self.ctx.state(("dev", self.cfg["id"], self.snapshot(), self.operator.snapshot(),
+                                "answer", point, apdu[2] if len(apdu) > 2 else None))
+                k = self.ctx.choose(len(opts), "answer-" + point)
+                if k:
+                    self.lost = (point if point == "final" else "seed%d" % apdu[2], opts[k])
+                    self.events.append(("answer-lost",) + self.lost)
+                    self.world.drop_kind = "read" if opts[k] == "lost-link" else "timeout"
+                    if opts[k] == "lost-link":
+                        self.replug()                  # the device re-enumerates
+                    raise DropLink()
+        return resp
 
     def signer_app(self, apdu):
         if apdu[0] == 0x80 and apdu[1] == 0x06:
@@ -325,7 +354,9 @@ class C18(Check):
     id = "C18"
     level = "model_checking"
     rule = ("full lazy choice tree (no deviation bound) of device decisions {mode x6, onboarded x3, "
-            "echo x2, unlock x2, new PIN x2, onboarding answer x2, each of the six key exchanges {ok, status "
+            "echo x2, unlock x2, new PIN x2, onboarding answer x2, the answer to the first / last SEED "
+            "and to WIPE / SGX_ONBOARD {delivered, lost with the link, lost by time-out} after the "
+            "device applied the command, each of the six key exchanges {ok, status "
             "error, link drop, invalid key}} and operator inputs {stdin lines "
             "<= 3 over 8 answers (incl. a last line without newline; thorough: CRLF ending, very long line) + end of file "
             "(then \"\" for ever; a tool that keeps reading is cut after 3 reads) + walk away, at every "
@@ -488,6 +519,7 @@ class C18(Check):
             td.write("out.json", STALE_JSON)
         dev = LazyDev(ctx, cfg, self.modes)
         w = World(dev)
+        dev.world = w
         op = Operator(ctx, cfg, dev, w, self.stdin_menu, self.getpass_menu)
         dev.operator = op
         # ONE recording source behind every door to randomness (os.urandom, secrets, SystemRandom,
@@ -601,6 +633,12 @@ class C18(Check):
             c = apdu[1]
             if not shape or shape[-1] != c:
                 shape.append(c)
+            if c in (0x44, 0x07, 0xA0) and outcome[0] == "sw" and outcome[1] in (0x69A1, 0x6BEF):
+                # the firmware's own verdict: this command reached a device that IS onboarded
+                V("onboarding-precondition", "%s:device-was-onboarded" %
+                  {0x44: "SEED", 0x07: "WIPE", 0xA0: "SGX_ONBOARD"}[c],
+                  {"apdu_index": idx, "answer": "0x%04x" % outcome[1], "lost_answer": dev.lost},
+                  {"sent_only_to": "a device that is not onboarded"})
             if seedbuf and c not in (0x44, 0x41, 0x07):
                 # bootloader.c reset_if_starting: SEED / SEND_PIN / WIPE are one operation; any
                 # other instruction in between clears the host seed received so far
@@ -657,9 +695,9 @@ class C18(Check):
             elif c == 0xA5:
                 change_pins.append(apdu[3:])
                 change_answers.append(ok and len(resp) >= 3 and resp[2] == 1)
-        if pinbuf:
+        if pinbuf and dev.lost is None:
             V("pin-transfer", "unterminated", {"sent": pinbuf}, {"terminated_by": "WIPE/UNLOCK/CHANGE"})
-        if seedbuf:
+        if seedbuf and dev.lost is None:
             V("onboarding-precondition", "SEED:without-WIPE", {"seed_bytes": len(seedbuf)},
               {"seed_followed_by": "PIN and WIPE"})
         # ---- seed = what the random source produced --------------------------------
@@ -706,7 +744,8 @@ class C18(Check):
                         open_case = True       # --anypin lets a non-compliant PIN through
                         break
             pre = (nominal_dev and dims.get("onboarded") == "no" and bool(yes_positions)
-                   and supplied is not None and (sgx or cfg["output"]) and not open_case)
+                   and supplied is not None and (sgx or cfg["output"]) and not open_case
+                   and dev.lost is None)
             if pre and not onboard_pins:
                 V("carried-out", "onboarding-not-attempted", {"end": end, "shape": shape,
                   "out": r.out[-300:]}, {"onboarding": "SEED, PIN, WIPE sent"})
